@@ -349,6 +349,9 @@ class Tle:
             # lines containing only a COSPAR ID, which happens when an object is detected but the
             # JSpOc doesn't know what is the source yet.
             if line.startswith("1 "):
+                # A line 1 opens a new entry: only a name line may precede it, not an
+                # orphan line 1 left over by a malformed entry
+                cache = [x for x in cache[-1:] if not x.startswith("1 ")]
                 cache.append(line)
             elif line.startswith("2 "):
                 cache.append(line)
